@@ -339,6 +339,74 @@ pub fn run_batch<R: Send + 'static>(
     (res, v)
 }
 
+// ------------------------------------------------------------------------------------------------
+// step budgets: turn a spinning search / iterator into a value instead of a hung check
+
+/// Per-thread budgets enforced from the library's yield points (H1). A budget that runs out
+/// unwinds the call in progress with a recognisable payload; callers see it as `Outcome::Panic`
+/// with that message. Budgets are logical (VM instructions, search calls) — never wall-clock — so
+/// they trip at the same point in every execution.
+pub mod budget {
+    use fancy_regex::verif::{self, site};
+    use std::cell::Cell;
+
+    pub const INSN_PAYLOAD: &str = "frsim-budget-vm-instructions";
+    pub const SEARCH_PAYLOAD: &str = "frsim-budget-search-calls";
+    /// default per-call instruction budget: far above anything a search on the small workloads
+    /// needs even when it legitimately runs into the default backtrack limit
+    pub const DEFAULT_INSNS: u64 = 400_000_000;
+
+    thread_local! {
+        static INSNS: Cell<u64> = Cell::new(u64::MAX);
+        static SEARCHES: Cell<u64> = Cell::new(u64::MAX);
+    }
+
+    fn hook(s: u32) {
+        if s == site::VM_INSN {
+            let left = INSNS.with(|c| {
+                let v = c.get().saturating_sub(1);
+                c.set(v);
+                v
+            });
+            if left == 0 {
+                INSNS.with(|c| c.set(u64::MAX));
+                std::panic::panic_any(INSN_PAYLOAD);
+            }
+        } else if s == site::API_IS_MATCH || s == site::API_FIND || s == site::API_CAPTURES {
+            let left = SEARCHES.with(|c| {
+                let v = c.get().saturating_sub(1);
+                c.set(v);
+                v
+            });
+            if left == 0 {
+                SEARCHES.with(|c| c.set(u64::MAX));
+                std::panic::panic_any(SEARCH_PAYLOAD);
+            }
+        }
+    }
+
+    /// Install the budget hook on the calling thread (idempotent) with unlimited budgets.
+    pub fn install() {
+        verif::set_yield_hook(Some(hook));
+        disarm();
+    }
+
+    /// Arm: the next `insns` VM instructions / `searches` search-API calls are allowed.
+    pub fn arm(insns: u64, searches: u64) {
+        INSNS.with(|c| c.set(insns.saturating_add(1)));
+        SEARCHES.with(|c| c.set(searches.saturating_add(1)));
+    }
+
+    pub fn disarm() {
+        INSNS.with(|c| c.set(u64::MAX));
+        SEARCHES.with(|c| c.set(u64::MAX));
+    }
+
+    pub fn is_budget_panic(msg: &str) -> bool {
+        msg == INSN_PAYLOAD || msg == SEARCH_PAYLOAD
+    }
+}
+
 pub fn now() -> std::time::Instant {
     std::time::Instant::now()
 }
